@@ -39,10 +39,10 @@ def run(tier, seed):
             for m in ('copy', 'pickle', 'yaml'):
                 rp.append(dict(name='C07_%s_%s' % (nm, m), progs=C.fam(progs), plans=save_plans((1, 2, 3, 4)), alphabet=['save', 'restore'], k=1,
                                run_kw=dict(rk(m), inputs=inp)))
-        outl = [('C07_outl_%s' % m, om.sample(om.family(4, 3), 2000, seed), om.oracles(3), crash_sets(5, 2), m, 0, 'default') for m in ('copy', 'pickle', 'yaml')]
-        outl += [('C07_outl_%s_late' % m, om.sample(om.family(4, 3), 1000, seed + 1), om.oracles(3), crash_sets(5, 2), m, 1, 'default') for m in ('mem', 'pfile')]
-        outl += [('C07_outl_custom_loader_%s' % m, om.sample(om.family(4, 3), 600, seed + 2), om.oracles(3), crash_sets(5, 2), m, 0, 'custom') for m in ('copy', 'pickle', 'yaml')]
-        outl += [('C07_outl_alternating_loaders_%s' % m, om.sample(om.family(4, 3), 600, seed + 3), om.oracles(3), crash_sets(5, 3), m, 0, 'alternate') for m in ('copy', 'yaml')]
+        outl = [('C07_outl_%s' % m, om.sample(om.family(4, 3), 1500, seed), om.oracles(3), crash_sets(5, 2), m, 0, 'default') for m in ('copy', 'pickle', 'yaml')]
+        outl += [('C07_outl_%s_late' % m, om.sample(om.family(4, 3), 600, seed + 1), om.oracles(3), crash_sets(5, 2), m, 1, 'default') for m in ('mem', 'pfile')]
+        outl += [('C07_outl_custom_loader_%s' % m, om.sample(om.family(4, 3), 400, seed + 2), om.oracles(3), crash_sets(5, 2), m, 0, 'custom') for m in ('copy', 'pickle', 'yaml')]
+        outl += [('C07_outl_alternating_loaders_%s' % m, om.sample(om.family(4, 3), 400, seed + 3), om.oracles(3), crash_sets(5, 3), m, 0, 'alternate') for m in ('copy', 'yaml')]
     viol = 0
     ostates = oreplayed = 0
     osumm = []
